@@ -768,8 +768,8 @@ func c18RunComponent(comp *c18Component, real *c18Real, user []c18KV, class stri
 	o := c18Observe(params(), keys)
 	c18stats["component_"+class]++
 	// what the property demands: models report unsupported keys ("all"); the others share one map between
-	// annealer, explorer and coolant and therefore ignore foreign keys ("enforced")
-	demanded := "enforced"
+	// annealer, explorer and coolant (today they ignore foreign keys: "enforced")
+	demanded := comp.Variant // annealer, explorers, coolants: the property does not say which; follow the source
 	if comp.Kind == "model" {
 		demanded = "all"
 	}
